@@ -113,12 +113,12 @@ func (r *run) c27ObservedEvent(h uint32, pre *preObs, entered common.Fixed64, ho
 	change := a.GetFinalRoundChange()
 	c.Probe("c27-observed-clearing")
 	seats := len(r.params.DPoSConfiguration.CRCArbiters) + r.params.DPoSConfiguration.NormalArbitratorsCount
-	sig := "C27/observed"
+	sig, class := "C27/observed", roundClass(pre, seats)
 	if entered == 0 && how != "with block" {
-		sig = "C27/observed-forced-change"
+		// the forced clearing is a cause of its own whatever the round looked like
+		sig, class = "C27", "/observed-forced-change"
 	}
-	sig += roundClass(pre, seats)
-	checkDistribution(c, sig, fmt.Sprintf("clearing at height %d %s (round had %d arbiters for %d seats, %d candidates, %d votes in the round's snapshot; accumulated before %d, entered %d, carried forward %d)",
+	checkDistribution(c, sig, class, fmt.Sprintf("clearing at height %d %s (round had %d arbiters for %d seats, %d candidates, %d votes in the round's snapshot; accumulated before %d, entered %d, carried forward %d)",
 		h, how, pre.nArbs, seats, pre.nCands, int64(pre.totalVotes), int64(pre.acc), int64(entered), int64(accPost)), pool, payouts, change, nil)
 }
 
@@ -143,7 +143,16 @@ func roundClass(pre *preObs, seats int) string {
 func checkDistribution(c interface {
 	Check()
 	Violate(prop, oracle, signature, format string, a ...interface{}) bool
-}, sigPrefix, what string, pool *big.Int, payouts map[common.Uint168]common.Fixed64, change common.Fixed64, real *common.Fixed64) {
+}, sigPrefix, class, what string, pool *big.Int, payouts map[common.Uint168]common.Fixed64, change common.Fixed64, real *common.Fixed64) {
+	// A round whose shape already names a cause (zero votes in the snapshot,
+	// empty seats, ...) gets one signature whichever of the checks below it
+	// fails; otherwise the failed check is the signature.
+	sig := func(check string) string {
+		if class != "" {
+			return sigPrefix + class
+		}
+		return sigPrefix + "/" + check
+	}
 	sum := new(big.Int)
 	neg := false
 	var negV common.Fixed64
@@ -161,26 +170,26 @@ func checkDistribution(c interface {
 	}
 	c.Check()
 	if neg {
-		c.Violate("C27", "distribution", sigPrefix+"/negative-payout", "%s: a payout is negative (%d); pool=%s payouts=%d", what, int64(negV), pool, len(payouts))
+		c.Violate("C27", "distribution", sig("negative-payout"), "%s: a payout is negative (%d); pool=%s payouts=%d", what, int64(negV), pool, len(payouts))
 	}
 	c.Check()
 	if sum.Cmp(pool) > 0 {
-		c.Violate("C27", "distribution", sigPrefix+"/payouts-exceed-pool", "%s: sum of payouts %s > pool %s", what, sum, pool)
+		c.Violate("C27", "distribution", sig("payouts-exceed-pool"), "%s: sum of payouts %s > pool %s", what, sum, pool)
 	}
 	c.Check()
 	if change < 0 {
-		c.Violate("C27", "distribution", sigPrefix+"/negative-change", "%s: change %d < 0 (pool %s, payouts %s)", what, int64(change), pool, sum)
+		c.Violate("C27", "distribution", sig("negative-change"), "%s: change %d < 0 (pool %s, payouts %s)", what, int64(change), pool, sum)
 	}
 	c.Check()
 	tot := new(big.Int).Add(sum, big.NewInt(int64(change)))
 	if change >= 0 && !neg && sum.Cmp(pool) <= 0 && tot.Cmp(pool) > 0 {
-		c.Violate("C27", "distribution", sigPrefix+"/payouts-plus-change-exceed-pool",
+		c.Violate("C27", "distribution", sig("payouts-plus-change-exceed-pool"),
 			"%s: payouts %s + change %d = %s > pool %s (both are paid out by the next coinbase)", what, sum, int64(change), tot, pool)
 	}
 	if real != nil {
 		c.Check()
 		if big.NewInt(int64(*real)).Cmp(pool) > 0 {
-			c.Violate("C27", "distribution", sigPrefix+"/attributed-paid-exceeds-pool", "%s: amount attributed as paid %d > pool %s", what, int64(*real), pool)
+			c.Violate("C27", "distribution", sig("attributed-paid-exceeds-pool"), "%s: amount attributed as paid %d > pool %s", what, int64(*real), pool)
 		}
 	}
 }
@@ -374,14 +383,54 @@ func (r *run) compare(h uint32, when string) {
 				when, h, d.path, short(d.a), short(d.b), len(diffs)+len(named))
 			break
 		}
-		family := "C21/twin-differs/"
+		if r.forcedInSpan {
+			// connectBlock pre-processes an InactiveArbitrators payload with
+			// ProcessSpecialTxPayload(p, height-1): the forced arbiter change
+			// (and reward clearing) is committed to Arbiters.History under
+			// height-1, so rolling the block back to height-1 does not undo it.
+			// One signature for everything that differs after such a rollback.
+			var cls []string
+			for _, dd := range append(named, diffs...) {
+				dup := false
+				for _, x := range cls {
+					dup = dup || x == dd.class
+				}
+				if !dup {
+					cls = append(cls, dd.class)
+				}
+			}
+			if len(cls) > 8 {
+				cls = append(cls[:8], "...")
+			}
+			c.Violate("C21", "twin", "C21/twin-differs/special-payload-preprocessing-not-undone",
+				"%s height %d: a rolled-back block carried an InactiveArbitrators payload; %d leaves differ (%v); e.g. %s is %s, directly built %s",
+				when, h, len(diffs)+len(named), cls, d.path, short(d.a), short(d.b))
+			break
+		}
 		if r.deepSingleCall {
 			// one Manager.OnRollbackTo over several blocks: Arbiters.RollbackTo
 			// then undoes all heights of its own log before any height of the
 			// State's log. reorganizeChain never does that (it goes block by
-			// block), so differences seen only this way are kept apart.
-			family = "C21/twin-differs-deep-single-call/"
+			// block): one signature for the whole family, classes in the message.
+			var cls []string
+			for _, dd := range append(named, diffs...) {
+				dup := false
+				for _, x := range cls {
+					dup = dup || x == dd.class
+				}
+				if !dup && !(stateDiffers && strings.HasPrefix(dd.class, "CheckPoint.")) {
+					cls = append(cls, dd.class)
+				}
+			}
+			if len(cls) > 8 {
+				cls = append(cls[:8], "...")
+			}
+			c.Violate("C21", "twin", "C21/twin-differs-deep-single-call",
+				"%s height %d: after one OnRollbackTo over several blocks %d leaves differ from the directly built instance (%v); e.g. %s is %s, directly built %s",
+				when, h, len(diffs)+len(named), cls, d.path, short(d.a), short(d.b))
+			break
 		}
+		family := "C21/twin-differs/"
 		c.Violate("C21", "twin", family+d.class,
 			"%s height %d: %s is %s on the instance that was rolled back, %s on the instance built directly from the same blocks",
 			when, h, d.path, short(d.a), short(d.b))
